@@ -1,5 +1,7 @@
 package main
 
+import "fmt"
+
 // Go ports of the two semantics of lean/NeoModel/Model/Exec.lean.
 //   spRun : the transactional specification — the property's oracle for the real code.
 //   imRun : the implementation model — used only to *classify* a deviation of the real code
@@ -16,6 +18,13 @@ var cov = map[string]int{}
 // that completed normally while an exception was pending (the `dev` flag of Exec.spK; the two are
 // proved equal: Props/C04 impl_refines_specK). Reset by implRun.
 var devFired bool
+
+// staleFired: the implementation-model run started a Policy block (blockAccount / ContractManagement.destroy: votes
+// revoked, reward paid with a payment callback, THEN the account is put on the list) while another one was in
+// progress, i.e. inside the reward callback of an account that is being blocked: the shape of the known finding
+// blocked-list-stale-index (the outer insertion uses a position computed before the callback). Reset by implRun.
+var staleFired bool
+var blockDepth int
 
 type flags struct{ r, w, c, n bool }
 
@@ -45,6 +54,7 @@ const (
 	extAcc    = 8  // an account that is not a contract (so are 6 and 7)
 	senderAcc = 50 // the fee payer
 	maxFeePB  = 100000000
+	maxNotifications = 512 // interop.MaxNotificationCount
 )
 
 type resKind int
@@ -172,7 +182,8 @@ func natStep(n *Node, self int, f flags, view viewFn) *natOut {
 			} else if n.Nat.Amt < minDeposit {
 				out.cbAbort = true
 			} else {
-				out.ws = append([]wnode{{k: mkey{notaryTab, self}, v: n.Nat.Amt}}, out.ws...)
+				h, _ := view(mkey{heightTab, 0})
+				out.ws = append([]wnode{{k: mkey{tillTab, self}, v: h - 1 + depositDelta}, {k: mkey{notaryTab, self}, v: n.Nat.Amt}}, out.ws...)
 			}
 			return out
 		}
@@ -219,16 +230,20 @@ func natStep(n *Node, self int, f flags, view viewFn) *natOut {
 			return nil
 		}
 		cnt, _ := view(mkey{mgmtTab, 200 + self})
+		var nefW []wnode
+		if n.Nat.Val != 0 {
+			nefW = []wnode{{k: mkey{mgmtTab, 300 + self}, v: n.Nat.Val}}
+		}
 		if present(view, mkey{wlTab, self}) {
-			return &natOut{ws: []wnode{{k: mkey{mgmtTab, 200 + self}, v: cnt + 1}, {k: mkey{wlTab, self}, del: true}},
+			return &natOut{ws: cat(nefW, []wnode{{k: mkey{mgmtTab, 200 + self}, v: cnt + 1}, {k: mkey{wlTab, self}, del: true}}),
 				evs: []event{{wlTab, self}, {mgmtTab, 200 + self}}, cb: -1}
 		}
-		return &natOut{ws: []wnode{{k: mkey{mgmtTab, 200 + self}, v: cnt + 1}}, evs: []event{{mgmtTab, 200 + self}}, cb: -1}
-	case natDestroy:
+		return &natOut{ws: cat(nefW, []wnode{{k: mkey{mgmtTab, 200 + self}, v: cnt + 1}}), evs: []event{{mgmtTab, 200 + self}}, cb: -1}
+	case natDestroyP:
 		if !(f.r && f.w && f.n) || !alive(view, self) {
 			return nil
 		}
-		erase := []wnode{{k: mkey{mgmtTab, 100 + self}, v: 1}, {k: mkey{self, 3}, del: true}, {k: mkey{self, 2}, del: true},
+		erase := []wnode{{k: mkey{mgmtTab, 100 + self}, v: 1}, {k: mkey{self, 4}, del: true}, {k: mkey{self, 3}, del: true}, {k: mkey{self, 2}, del: true},
 			{k: mkey{self, 1}, del: true}, {k: mkey{self, 0}, del: true}}
 		if present(view, mkey{wlTab, self}) {
 			return &natOut{ws: cat(erase, []wnode{{k: mkey{wlTab, self}, del: true}, {k: mkey{blockTab, self}, v: 1}}),
@@ -313,6 +328,9 @@ func natStep(n *Node, self int, f flags, view viewFn) *natOut {
 			return &natOut{cb: -1}
 		}
 		on := n.Nat.Val != 0
+		if on && !present(view, mkey{regTab, 0}) {
+			return &natOut{cb: -1}
+		}
 		old := present(view, mkey{voteTab, self})
 		voters, _ := view(mkey{votersTab, 0})
 		cand, _ := view(mkey{candTab, 0})
@@ -337,6 +355,12 @@ func natStep(n *Node, self int, f flags, view viewFn) *natOut {
 			return nil
 		}
 		a := n.Nat.Val
+		if a == 99 {
+			if !alive(view, self) {
+				return nil
+			}
+			a = self
+		}
 		if present(view, mkey{blockTab, a}) {
 			return &natOut{cb: -1}
 		}
@@ -370,6 +394,70 @@ func natStep(n *Node, self int, f flags, view viewFn) *natOut {
 			out.cb = a
 		}
 		return out
+	case natRegCand:
+		if !(f.r && f.w && f.n) {
+			return nil
+		}
+		if present(view, mkey{regTab, 0}) {
+			return &natOut{cb: -1}
+		}
+		return &natOut{ws: []wnode{{k: mkey{regTab, 0}, v: 1}}, evs: []event{{regTab, 1}}, cb: -1}
+	case natUnregCand:
+		if !(f.r && f.w && f.n) {
+			return nil
+		}
+		if n.Nat.Val == 0 || !present(view, mkey{regTab, 0}) {
+			return &natOut{cb: -1}
+		}
+		return &natOut{ws: []wnode{{k: mkey{regTab, 0}, del: true}}, evs: []event{{regTab, 0}}, cb: -1}
+	case natOracleReq:
+		if !(f.r && f.w && f.n) {
+			return nil
+		}
+		if !alive(view, self) { // the mint and its event precede the check of the caller
+			return &natOut{evs: []event{{gasTab, responseGas}}, cb: self, cbAbort: true}
+		}
+		id, _ := view(mkey{oracleTab, 0})
+		g, _ := view(mkey{gasTab, oracleAcc})
+		return &natOut{ws: []wnode{{k: mkey{oracleTab, 100 + id}, v: 10*n.Nat.Val + self}, {k: mkey{oracleTab, 0}, v: id + 1},
+			{k: mkey{gasTab, oracleAcc}, v: g + responseGas}}, evs: []event{{gasTab, responseGas}, {oracleTab, id}}, cb: -1}
+	case natOracleFinish:
+		return nil
+	case natLock:
+		if !(f.r && f.w) {
+			return nil
+		}
+		h, _ := view(mkey{heightTab, 0})
+		till, _ := view(mkey{tillTab, self})
+		if self == entryID || n.Nat.Val < h+1 || !present(view, mkey{notaryTab, self}) || n.Nat.Val < till {
+			return &natOut{cb: -1}
+		}
+		return &natOut{ws: []wnode{{k: mkey{tillTab, self}, v: n.Nat.Val}}, cb: -1}
+	case natWithdraw:
+		if !(f.r && f.w && f.c && f.n) {
+			return nil
+		}
+		if self == entryID {
+			return &natOut{cb: -1}
+		}
+		amt, has := view(mkey{notaryTab, self})
+		if !has {
+			return &natOut{cb: -1}
+		}
+		h, _ := view(mkey{heightTab, 0})
+		till, _ := view(mkey{tillTab, self})
+		if h-1 < till {
+			return &natOut{cb: -1}
+		}
+		to := n.Nat.To
+		var gasW []wnode
+		if to != notaryAcc {
+			tb, _ := view(mkey{gasTab, to})
+			nb, _ := view(mkey{gasTab, notaryAcc})
+			gasW = []wnode{{k: mkey{gasTab, to}, v: tb + amt}, {k: mkey{gasTab, notaryAcc}, v: nb - amt}}
+		}
+		return &natOut{ws: cat(gasW, []wnode{{k: mkey{tillTab, self}, del: true}, {k: mkey{notaryTab, self}, del: true}}),
+			evs: []event{{gasTab, amt}}, cb: to, cbAbort: to == notaryAcc}
 	}
 	panic("bad native op")
 }
@@ -397,6 +485,9 @@ func expand(n *Node) *Node {
 	case natVote:
 		return &Node{Op: nNative, Fl: n.Fl, Nat: &NatOp{Kind: natVoteP, Val: n.Nat.Val, Tag: n.Nat.Tag},
 			Rest: []*Node{inner(NatOp{Kind: natMint, Val: 99})}}
+	case natDestroy:
+		return &Node{Op: nNative, Fl: n.Fl, Nat: &NatOp{Kind: natRevoke, Val: 99, Tag: n.Nat.Tag},
+			Rest: []*Node{inner(NatOp{Kind: natMint, Val: 99}), inner(NatOp{Kind: natDestroyP})}}
 	}
 	return nil
 }
@@ -406,6 +497,21 @@ func cbBody(n *Node) []*Node {
 		return n.Nat.Cb
 	}
 	return nil
+}
+
+// rewardProgram: what interpreter contract 1 does when it receives a GAS reward (the hook built into its
+// onNEP17Payment, interp.go): if its storage key 4 is present it calls contract 0, which destroys itself.
+// Driver/Exec.lean `rewardProg`.
+func rewardProgram() []*Node {
+	return []*Node{{Op: nIf, K: 4, Body: []*Node{{Op: nCall, C: 0, Fl: 15, Body: []*Node{{Op: nNative, Fl: 15, Nat: &NatOp{Kind: natDestroy, Tag: 90}}}}}}}
+}
+
+// cbProgram: the program the callback context `to` of a native phase runs.
+func cbProgram(n *Node, to int) []*Node {
+	if n.Nat.Kind == natMint && to == 1 {
+		return rewardProgram()
+	}
+	return cbBody(n)
 }
 
 // ---- specification ----
@@ -470,11 +576,16 @@ func spNode(n *Node, c int, f flags, s sst) (resKind, sst) {
 		}
 		return rFault, s
 	case nNotify:
-		if f.n && c != entryID {
-			s.ev = evAppend(s.ev, event{c, n.K})
-			return rNorm, s
+		if !(f.n && c != entryID) {
+			return rFault, s
 		}
-		return rFault, s
+		for i := 0; i < max(n.Rep, 1); i++ {
+			if len(s.ev) >= maxNotifications {
+				return rFault, s
+			}
+			s.ev = evAppend(s.ev, event{c, n.K})
+		}
+		return rNorm, s
 	case nIf:
 		if f.r && alive(s.st.get, c) {
 			if _, ok := s.st.get(mkey{c, n.K}); ok {
@@ -546,11 +657,15 @@ func spNode(n *Node, c int, f flags, s sst) (resKind, sst) {
 		}
 		s.st = applyWrites(s.st, out.ws)
 		s.ev = evAppend(s.ev, out.evs...)
+		if len(s.ev) > maxNotifications { // the event that finds the list full panics
+			s.ev = s.ev[:maxNotifications:maxNotifications]
+			return rFault, s
+		}
 		if out.cb >= 0 {
 			if out.cbAbort {
 				return rFault, s
 			}
-			k, s2 := spList(cbBody(n), out.cb, f1, s)
+			k, s2 := spList(cbProgram(n, out.cb), out.cb, f1, s)
 			if k != rNorm {
 				return rFault, s2
 			}
@@ -707,11 +822,20 @@ func imNode(n *Node, x ictx, s ist) (resKind, ist) {
 		}
 		return rFault, s
 	case nNotify:
-		if x.f.n && x.c != entryID {
-			s.ev = evAppend(s.ev, event{x.c, n.K})
-			return rNorm, s
+		if !(x.f.n && x.c != entryID) {
+			return rFault, s
 		}
-		return rFault, s
+		for i := 0; i < max(n.Rep, 1); i++ {
+			if len(s.ev) >= maxNotifications {
+				cov["dyn:notification-limit-hit"]++
+				return rFault, s
+			}
+			s.ev = evAppend(s.ev, event{x.c, n.K})
+		}
+		if n.Rep > 1 {
+			cov["dyn:bulk-notify-completed"]++
+		}
+		return rNorm, s
 	case nIf:
 		if x.f.r && alive(s.view, x.c) {
 			if _, ok := s.view(mkey{x.c, n.K}); ok {
@@ -801,6 +925,13 @@ func imNode(n *Node, x ictx, s ist) (resKind, ist) {
 		if !(n.Inner || (x.f.r && x.f.c)) {
 			return rFault, s
 		}
+		if n.Nat.Kind == natRevoke && len(n.Rest) > 0 {
+			if blockDepth > 0 {
+				staleFired = true
+			}
+			blockDepth++
+			defer func() { blockDepth-- }()
+		}
 		f1 := x.f
 		if !n.Inner {
 			f1 = x.f.and(flagsOf(n.Fl))
@@ -815,9 +946,15 @@ func imNode(n *Node, x ictx, s ist) (resKind, ist) {
 		if out == nil {
 			return rFault, s0
 		}
+		covNative(n, out)
 		s1 := s0
 		s1.top = applyWrites(s1.top, out.ws)
 		s1.ev = evAppend(s1.ev, out.evs...)
+		if len(s1.ev) > maxNotifications {
+			cov["dyn:notification-limit-hit-by-native"]++
+			s1.ev = s1.ev[:maxNotifications:maxNotifications]
+			return rFault, s1
+		}
 		if len(out.ws) > 0 {
 			if wrapped {
 				cov["dyn:native-write-wrapped"]++
@@ -829,7 +966,7 @@ func imNode(n *Node, x ictx, s ist) (resKind, ist) {
 			if out.cbAbort {
 				return rFault, s1
 			}
-			k, s2 := imList(cbBody(n), ictx{out.cb, f1, false, x.h}, s1)
+			k, s2 := imList(cbProgram(n, out.cb), ictx{out.cb, f1, false, x.h}, s1)
 			if k == rThrown {
 				cov["dyn:payment-callback-threw"]++
 			}
@@ -855,8 +992,26 @@ func imNode(n *Node, x ictx, s ist) (resKind, ist) {
 	panic("bad node")
 }
 
+// covNative counts, for the natives whose checks can refuse, whether the call had an effect.
+func covNative(n *Node, out *natOut) {
+	name := map[int]string{natRegCand: "registerCandidate", natUnregCand: "unregisterCandidate", natOracleReq: "oracle-request",
+		natLock: "lockDepositUntil", natWithdraw: "withdraw", natVoteP: "vote", natRevoke: "revoke-votes", natMint: "gas-reward-mint",
+		natNeoXferP: "neo-transfer", natUpdate: "update", natDestroyP: "destroy"}[n.Nat.Kind]
+	if name == "" {
+		return
+	}
+	switch {
+	case n.Nat.Kind == natUpdate:
+		cov[fmt.Sprintf("dyn:update-nef=%d", n.Nat.Val)]++
+	case len(out.ws) > 0:
+		cov["dyn:"+name+"-effective"]++
+	default:
+		cov["dyn:"+name+"-refused-or-noop"]++
+	}
+}
+
 func implRun(pre *wnode, t []*Node) outcome {
-	devFired = false
+	devFired, staleFired, blockDepth = false, false, 0
 	k, s := imList(t, ictx{entryID, flagsOf(15), false, false}, ist{below: []*wnode{pre}})
 	if k == rNorm {
 		return outcome{true, concat(s.top, pre), s.ev, s.ev}
